@@ -40,6 +40,9 @@
 #include <dirent.h>
 #include <unistd.h>
 #include <sys/stat.h>
+#include <sys/wait.h>
+#include <locale>
+#include <cppcms/urandom.h>
 
 static time_t virtual_now = 1000;
 extern "C" time_t time(time_t *t) { if(t) *t=virtual_now; return virtual_now; }
@@ -260,9 +263,17 @@ static std::string store_listing()
 	return join(rows);
 }
 
+// a global locale that groups digits ("86,400"): the library must not let it leak into what it stores
+struct grouping_numpunct : public std::numpunct<char> {
+	char do_thousands_sep() const { return ','; }
+	std::string do_grouping() const { return "\3"; }
+};
+
 static std::string do_new(std::vector<std::string> const &w)
 {
-	if(w.size()!=6) return "bad-op";
+	if(w.size()!=6 && !(w.size()==7 && w[6]=="grp")) return "bad-op";
+	if(w.size()==7) std::locale::global(std::locale(std::locale::classic(),new grouping_numpunct()));
+	else std::locale::global(std::locale::classic());
 	pool.reset(); factory=0;
 	tcp_svcs.clear(); tcp_backends.clear(); tcp_ports.clear();
 	if(!files_dir.empty()) { rm_dir(files_dir); files_dir.clear(); }
@@ -475,6 +486,46 @@ static std::string run(std::vector<std::string> const &w)
 	if(w.empty()) return "bad-op";
 	if(w[0]=="new") return do_new(w);
 	if(w[0]=="req" || w[0]=="req2") return do_req(w);
+	if(w[0]=="forksids" && w.size()==1) {
+		// Fresh made observable: one small draw in the parent, then two forked workers each create a server-side session
+		// over the shared storage; the identifiers they issue must differ
+		if(!pool.get() || !factory) return "bad-op";
+		{ unsigned char b[16]; urandom_device d; d.generate(b,sizeof(b)); }
+		std::string got[2];
+		for(int c=0;c<2;c++) {
+			int fds[2];
+			if(pipe(fds)!=0) return "bad-op";
+			std::cout.flush();
+			pid_t pid=fork();
+			if(pid==0) {
+				close(fds[0]);
+				std::string sid="?";
+				try {
+					std::vector<set_cookie_call> out;
+					adapter a; a.shared=&out;
+					{
+						session_interface s(*pool,a);
+						s.load();
+						s.set("k",std::string(200,'x'));
+						s.on_server(true);
+						s.save();
+					}
+					for(size_t i=0;i<out.size();i++) if(out[i].is_session && !out[i].del) sid=out[i].value;
+				}
+				catch(...) { sid="exception"; }
+				if(write(fds[1],sid.data(),sid.size())<0) {}
+				_exit(0);
+			}
+			close(fds[1]);
+			char buf[256]; ssize_t n;
+			while((n=read(fds[0],buf,sizeof(buf)))>0) got[c].append(buf,n);
+			close(fds[0]);
+			int st=0; waitpid(pid,&st,0);
+		}
+		if(got[0].size()!=33 || got[1].size()!=33) return "bad "+vh::hex(got[0])+" "+vh::hex(got[1]);
+		for(int c=0;c<2;c++) { try { factory->inner->remove(got[c].substr(1)); } catch(...) {} }	// the workers' sessions are not part of the history
+		return got[0]!=got[1] ? "distinct" : "same";
+	}
 	if(w[0]=="drop" && w.size()==1) {
 		// fault: every node's network front-end is stopped and started again on the same port over the same
 		// session_storage object (the records persist); the client's established connections are dead afterwards
